@@ -220,11 +220,11 @@ Definition build_corr (c : bcase) : bool :=
 (* "a few dozen bytes": 8 (fee field: 9-byte placeholder vs 1-byte fee) + 8 (absorbing coin field) are proved
    (FeeProofs.builder_tight: 16); dropping a script also drops its framing in the witness set, at most
    3 script kinds * (1 map key + 3 tag 258 + 3 array head) = 21 bytes, and shortens the witness map head by <= 2.
-   16 + 21 + 2 = 39 <= 48. *)
-Definition FEW_DOZEN : Z := 48.
+   That framing is already part of bc_omitted (measured as the difference of the two witness-set encodings), so 16 + 8 spare = 24. *)
+Definition FEW_DOZEN : Z := 24.
 
 (* the property, on the implementation's output only: ledger minimum for the FINAL bytes, the execution units in
-   the final redeemers and ALL reference-script bytes  <=  body fee  <=  minimum + a*(48 + omitted) + 2 + buffer *)
+   the final redeemers and ALL reference-script bytes  <=  body fee  <=  minimum + a*(24 + omitted) + 2 + buffer *)
 Definition build_oracle (c : bcase) : bool :=
   match read_tx (bc_tx c) with
   | Some v =>
